@@ -1620,6 +1620,7 @@ def _numval(text):
 def token_change(a, b, role=None, kind=None):
     """None when the written token b carries the value of the input token a, else the category of the change:
        value      a number with another value (typed reading when role/kind are given: float members compare as binary32)
+       neg-zero   a float member: one of the two is -0.0, the other 0.0
        f32        (untyped numbers only) the values differ as binary64 but agree after rounding to binary32
        hex-lost   hex notation became decimal or vice versa, same value
        quoted     an identifier became a string with the same text
@@ -1635,6 +1636,8 @@ def token_change(a, b, role=None, kind=None):
         return None if ta == tb else 'other'
     if role == 'float':
         va, vb = read_float(kind, ta, True), read_float(kind, tb, True)
+        if va is not None and vb is not None and va != vb and (va[1] | vb[1]) == (1 << 63) and (va[1] & vb[1]) == 0:
+            return 'neg-zero'               # -0.0 written as 0 (or the reverse): equal as numbers, the sign is lost
         return None if va is not None and va == vb else 'value'
     na, nb = _numval(ta), _numval(tb)
     if na is None or nb is None:
